@@ -47,6 +47,17 @@ var c12Mods = map[string]string{
 }
 
 func c12ModuleMap() *tengo.ModuleMap {
+	mm := c12DecodeModuleMap()
+	// a host module holding only data: the compiling host registers it, the decoding host (like
+	// cmd/tengo, which knows the stdlib only) does not; its table travels inside the bytecode
+	mm.AddBuiltinModule("conf", map[string]tengo.Object{
+		"debug": tengo.TrueValue, "off": tengo.FalseValue, "nothing": tengo.UndefinedValue, "n": &tengo.Int{Value: 10},
+		"nested": &tengo.Map{Value: map[string]tengo.Object{"flag": tengo.FalseValue, "list": &tengo.Array{Value: []tengo.Object{tengo.TrueValue, tengo.UndefinedValue, &tengo.String{Value: "conf"}}}}},
+	})
+	return mm
+}
+
+func c12DecodeModuleMap() *tengo.ModuleMap {
 	mm := stdModules()
 	for n, s := range c12Mods {
 		mm.AddSourceModule(n, []byte(s))
@@ -72,6 +83,8 @@ func c12RefMods() map[string]*ref.Module {
 		}
 		return nil, ref.ErrArgType{Name: "first", Expected: "float(compatible)", Found: ref.TypeName(a[0])}
 	}}}}
+	m["conf"] = &ref.Module{Table: map[string]ref.Value{"debug": ref.Bool(true), "off": ref.Bool(false), "nothing": ref.Undef{}, "n": ref.Int(10),
+		"nested": ref.NewMap(map[string]ref.Value{"flag": ref.Bool(false), "list": ref.NewArr([]ref.Value{ref.Bool(true), ref.Undef{}, ref.Str("conf")}, false)}, false)}}
 	m["text"] = &ref.Module{Table: map[string]ref.Value{"to_upper": &ref.HostFn{Name: "to_upper", F: func(a []ref.Value) (ref.Value, error) {
 		if len(a) != 1 {
 			return nil, ref.ErrWrongArgs{}
@@ -90,6 +103,7 @@ var c12Prefixes = []string{
 	"c1 := import(\"cnt\")\nc2 := import(\"cnt\")\nr0 := [c1(), c1(), c2(), 10, 10, 11]\n",
 	"f := func() { return 10 }\ng := func() { return 10 }\nh := func() { l := import(\"lib\"); return l.add(10, 10) }\nr0 := f() + g() + h() + 10\n",
 	"a := 65; b := 'A'; c := 65.0; d := \"65\"; e := [65, 'A', 65.0, \"65\", 65]; s := \"\" + \"\" + \"A\" + 'A'\n",
+	"conf := import(\"conf\")\nr0 := [conf.debug == true, conf.off == false, conf.nested.flag == false, is_undefined(conf.nothing), conf.nothing == undefined, conf.nested.list[0] == true, conf.nested.list[1] == undefined, conf.debug ? 1 : 0, conf.off || 7, conf.n + 10, conf.nested.list[2] + \"conf\"]\nr1 := [conf.debug, conf.off, conf.nothing]\n",
 	"",
 	"",
 }
@@ -131,7 +145,7 @@ func (c *c12) variants(src string) (raw, dd, ser *rawCompiled, err error, encErr
 		}
 		encoded = buf.Bytes()
 		nb := &tengo.Bytecode{}
-		if e := nb.Decode(bytes.NewReader(encoded), c12ModuleMap()); e != nil {
+		if e := nb.Decode(bytes.NewReader(encoded), c12DecodeModuleMap()); e != nil {
 			return e
 		}
 		ser = &rawCompiled{BC: nb, Globals: ser.Globals, Index: ser.Index, NumGlob: ser.NumGlob}
@@ -300,7 +314,7 @@ func (c *c12) RunCase(r *fw.Rec, cs fw.Case) {
 			if e := raw.BC.Encode(&buf2); e != nil {
 				return e
 			}
-			return nb.Decode(bytes.NewReader(buf2.Bytes()), c12ModuleMap())
+			return nb.Decode(bytes.NewReader(buf2.Bytes()), c12DecodeModuleMap())
 		})
 		if derr == nil {
 			s2 := runRaw(raw, nb, 5_000_000, nil)
